@@ -30,6 +30,11 @@ func main() {
 	commands["battles"] = cmdBattles
 	commands["rot"] = cmdRot
 	commands["api"] = cmdAPI
+	commands["asm"] = cmdAsm
+	commands["outs"] = cmdOuts
+	commands["outs-replay"] = cmdOutsReplay
+	commands["forasm"] = cmdForAsm
+	commands["prog-replay"] = cmdProgReplay
 	commands["alias"] = cmdAlias
 	commands["jobs"] = cmdJobs
 	commands["api-replay"] = cmdAPIReplay
